@@ -18,16 +18,6 @@ class Box:
     pass
 
 
-def _acc(x, acc=[]):
-    acc.append(x)
-    return acc
-
-
-def _accd(k, d={}):
-    d[k] = len(d)
-    return d
-
-
 def _none_default(x, acc=None):
     if acc is None:
         acc = []
@@ -42,6 +32,14 @@ def _note(log, v):
 
 @lemma
 def mutable_default_is_shared_across_calls(n: int):
+    def _acc(x, acc=[]):  # defined per run: the default list is created once per definition
+        acc.append(x)
+        return acc
+
+    def _accd(k, d={}):
+        d[k] = len(d)
+        return d
+
     a = _acc(n)
     b = _acc(2)
     assert a is b and b == [n, 2]
